@@ -447,3 +447,28 @@ impl HuginnNetTcp {
         }
     }
 }
+
+/// verif hook H3: public doorway to the private per-packet and packet-loop paths, so a simulator
+/// can be the packet source. Calls the private functions verbatim; compiled only under the guard.
+#[cfg(huginn_net_verif)]
+impl HuginnNetTcp {
+    pub fn verif_process_packet(
+        &self,
+        packet: &[u8],
+        connection_tracker: &mut TtlCache<ConnectionKey, TcpTimestamp>,
+    ) -> Result<TcpAnalysisResult, HuginnNetTcpError> {
+        self.process_packet(packet, connection_tracker)
+    }
+
+    pub fn verif_process_with<F>(
+        &mut self,
+        packet_fn: F,
+        sender: Sender<TcpAnalysisResult>,
+        cancel_signal: Option<Arc<AtomicBool>>,
+    ) -> Result<(), HuginnNetTcpError>
+    where
+        F: FnMut() -> Option<Result<Vec<u8>, HuginnNetTcpError>>,
+    {
+        self.process_with(packet_fn, sender, cancel_signal)
+    }
+}
